@@ -151,38 +151,48 @@ pub fn canon_matches(eg: &EGraph<Main>, pslots: &[u32], substs: &[Subst]) -> Str
     for s in substs {
         let mut vars: Vec<&String> = s.keys().collect();
         vars.sort();
-        let mut num: Vec<u32> = Vec::new();
+        // all fresh-slot numberings that produced the smallest texts so far
+        let mut nums: Vec<Vec<u32>> = vec![Vec::new()];
         let mut parts: Vec<String> = Vec::new();
+        let coarse = format!("!{}", vars.iter().map(|v| format!("{}=@{}#{}", v, s[*v].id.0, s[*v].m.len())).collect::<Vec<_>>().join("&"));
         for v in vars {
+            if nums.len() > 48 {
+                break;
+            }
             let a = &s[v];
             let perms = eg.verif_group_perms(a.id);
-            let cands: Vec<SlotMap> = if perms.is_empty() { vec![a.m.clone()] } else { perms.iter().map(|p| p.compose_partial(&a.m)).collect() };
-            let mut best: Option<(String, Vec<u32>)> = None;
-            for m in cands {
-                let mut n2 = num.clone();
-                let mut ps: Vec<String> = Vec::new();
-                for (k, val) in m.iter() {
-                    let vc = code(val);
-                    if pslots.contains(&vc) {
-                        ps.push(format!("{}>p{}", code(k), vc));
-                    } else if let Some(i) = n2.iter().position(|x| *x == vc) {
-                        ps.push(format!("{}>F{}", code(k), i));
-                    } else {
-                        ps.push(format!("{}>F{}", code(k), n2.len()));
-                        n2.push(vc);
+            let maps: Vec<SlotMap> = if perms.is_empty() { vec![a.m.clone()] } else { perms.iter().map(|p| p.compose_partial(&a.m)).collect() };
+            let mut rendered: Vec<(String, Vec<u32>)> = Vec::new();
+            for num in &nums {
+                for m in &maps {
+                    let mut n2 = num.clone();
+                    let mut ps: Vec<String> = Vec::new();
+                    for (k, val) in m.iter() {
+                        let vc = code(val);
+                        if pslots.contains(&vc) {
+                            ps.push(format!("{}>p{}", code(k), vc));
+                        } else if let Some(i) = n2.iter().position(|x| *x == vc) {
+                            ps.push(format!("{}>F{}", code(k), i));
+                        } else {
+                            ps.push(format!("{}>F{}", code(k), n2.len()));
+                            n2.push(vc);
+                        }
                     }
-                }
-                let txt = ps.join("|");
-                match &best {
-                    Some((b, _)) if !(txt < *b) => {}
-                    _ => best = Some((txt, n2)),
+                    rendered.push((ps.join("|"), n2));
                 }
             }
-            let (txt, n2) = best.unwrap();
-            num = n2;
-            parts.push(format!("{}=@{}[{}]", v, a.id.0, txt));
+            let best: String = rendered.iter().map(|r| r.0.clone()).min().unwrap_or_default();
+            let mut next: Vec<Vec<u32>> = Vec::new();
+            for (t, n2) in rendered {
+                if t == best && !next.contains(&n2) {
+                    next.push(n2);
+                }
+            }
+            nums = next;
+            parts.push(format!("{}=@{}[{}]", v, a.id.0, best));
         }
-        strs.push(parts.join("&"));
+        // too many equally good numberings (large symmetry groups over interchangeable fresh slots): the coarse form
+        strs.push(if nums.len() > 48 { coarse } else { parts.join("&") });
     }
     strs.sort();
     strs.dedup();
@@ -339,6 +349,26 @@ pub fn exec_mat(ops: Vec<Op>, seed: u64) -> Case {
                     continue;
                 }
             };
+            // the whole list of substitutions against the Lean model of the multi-pattern matcher
+            // (the number of intermediate states grows like (largest symmetry group)^(number of equations); the Lean model is
+            // list-based and about a hundred times slower than the implementation, so the comparison is limited to cases
+            // where that bound is small — a deterministic criterion, independent of timing)
+            let maxg = eg.ids().iter().map(|i| eg.verif_group_count(*i)).max().unwrap_or(1).max(1) as u64;
+            let work = (0..eqs.len()).fold(1u64, |w, _| w.saturating_mul(maxg));
+            if work <= 3000 && substs.len() <= 60 && substs.iter().all(|s| s.values().all(|a| a.m.is_bijection())) {
+                let mut psl: Vec<u32> = Vec::new();
+                for (_, n, _) in &eqs {
+                    for sl in n.all_slot_occurrences() {
+                        let c = code(sl);
+                        if !psl.contains(&c) {
+                            psl.push(c);
+                        }
+                    }
+                }
+                let enc: Vec<String> = eqs.iter().map(|(o, n, ks)| format!("{o}~{}~{}", enc_anode(&n.to_anode()), if ks.is_empty() { "-".to_string() } else { ks.join(",") })).collect();
+                qs.push(format!("mmatch {}", enc.join("/")));
+                outs.push(canon_matches(&eg, &psl, &substs));
+            }
             for s in substs.iter().take(10) {
                 nmatches += 1;
                 if !s.values().all(|a| a.m.is_bijection()) {
